@@ -445,6 +445,20 @@ func (g *Gen) batchFilter(op *Op, valid func(st *MEnt) bool) bool {
 	return false
 }
 
+// leakKinds are the ops whose after-event observer callbacks may leave a query open (Op.Leak): the events fire
+// when the operation's structural work is complete.
+var leakKinds = map[Kind]bool{KNewEntity: true, KAdd: true, KExchange: true, KSet: true, KSetRel: true, KCopy: true,
+	KAddBatch: true, KExchangeBatch: true, KSetRelBatch: true, KEmit: true}
+
+func (g *Gen) anyPostObserver() bool {
+	for i := range g.M.Obs {
+		if g.M.Obs[i].Registered && !g.M.Obs[i].Spec.Ev.IsBefore() {
+			return true
+		}
+	}
+	return false
+}
+
 // Next generates the next op.
 func (g *Gen) Next() *Op {
 	// lock-discipline phases: open up to 64 queries, then close them in a random permutation
@@ -485,6 +499,10 @@ func (g *Gen) Next() *Op {
 	for tries := 0; tries < 50; tries++ {
 		k := g.pickKind()
 		if op := g.make(k); op != nil {
+			if op.Leak == nil && leakKinds[k] && g.P.LeakPct > 0 && g.M.Locks == 0 && g.anyPostObserver() && g.R.Chance(g.P.LeakPct) {
+				// a query opened inside the first after-event observer callback of this op and left open
+				op.Leak = g.make(KOpenQuery)
+			}
 			return op
 		}
 	}
@@ -1029,11 +1047,38 @@ func (g *Gen) make(k Kind) *Op {
 			return nil
 		}
 		op.Slot = slot
+		// bias: a further query from a filter object that already has a query open, with one per-query target that
+		// differs from the open one's (overlapping queries of one filter must not share their relation arguments)
+		for i := range g.M.Queries {
+			q := &g.M.Queries[i]
+			if !q.Open || q.SF < 0 || !g.M.Filters[q.SF].Used || (q.Cached && !g.M.Filters[q.SF].Registered) || !R.Chance(60) {
+				continue
+			}
+			spec := &g.M.Filters[q.SF].Spec
+			qr := g.aliveRels(g.relTargetsFor(spec, relComps(spec.Rels), 100))
+			if len(qr) == 0 {
+				continue
+			}
+			one := qr[R.Intn(len(qr))]
+			for _, o := range q.QRels {
+				if o.C == one.C && o.T == one.T {
+					one.T = g.target(-2)
+				}
+			}
+			qr = g.aliveRels([]RelT{one})
+			if len(qr) != 1 {
+				continue
+			}
+			op.SF = q.SF
+			op.Cached = q.Cached
+			op.QRels = qr
+			return op
+		}
 		if s := g.standing(); s >= 0 && R.Chance(40) {
 			op.SF = s
 			op.Cached = g.M.Filters[s].Registered && R.Chance(60)
 			spec := &g.M.Filters[s].Spec
-			op.QRels = g.aliveRels(g.relTargetsFor(spec, relComps(spec.Rels), 25))
+			op.QRels = g.aliveRels(g.relTargetsFor(spec, relComps(spec.Rels), 50))
 		} else {
 			op.F = g.filterSpec(false, R.Chance(70))
 			if op.F.Kind != FUnsafe {
